@@ -379,11 +379,8 @@ Definition rel_fn_binders (rec : rel_fn) (v : variance) (na : N) (ca : list tm) 
 Definition abi_eqb (a b : abi) : bool := match a, b with AbiRust, AbiRust | AbiC, AbiC => true | _, _ => false end.
 Definition safety_eqb (a b : safety) : bool := match a, b with Safe, Safe | Unsafe, Unsafe => true | _, _ => false end.
 
-(** [relate_ty_ty] *)
-Definition rel_ty (f : nat) (rec : rel_fn) (v : variance) (a0 b0 : tm) : M unit :=
-  tb <- get_table ;;
-  let a := shallow_ty tb a0 in
-  let b := shallow_ty tb b0 in
+(** [relate_ty_ty], after the shallow normalisation of both sides *)
+Definition rel_ty_norm (f : nat) (rec : rel_fn) (v : variance) (a b : tm) : M unit :=
   if tm_eqb a b then ret tt else
   match tcls_of a, tcls_of b with
   | CInfer v1 k1, CInfer v2 k2 =>
@@ -424,6 +421,10 @@ Definition rel_ty (f : nat) (rec : rel_fn) (v : variance) (a0 b0 : tm) : M unit 
       end
   end.
 
+(** [relate_ty_ty] *)
+Definition rel_ty (f : nat) (rec : rel_fn) (v : variance) (a0 b0 : tm) : M unit :=
+  tb <- get_table ;; rel_ty_norm f rec v (shallow_ty tb a0) (shallow_ty tb b0).
+
 (** [unify_lifetime_var] *)
 Definition unify_lifetime_var (v : variance) (var : N) (value : tm) (value_ui : N) : M unit :=
   c <- get_cell var ;;
@@ -450,11 +451,8 @@ Definition lcls_of (a : tm) : lcls :=
       end
   end.
 
-(** [relate_lifetime_lifetime] *)
-Definition rel_lt (v : variance) (a0 b0 : tm) : M unit :=
-  tb <- get_table ;;
-  let a := shallow1 tb a0 in
-  let b := shallow1 tb b0 in
+(** [relate_lifetime_lifetime], after the shallow normalisation of both sides *)
+Definition rel_lt_norm (v : variance) (a b : tm) : M unit :=
   match lcls_of a, lcls_of b with
   | LBad, _ | _, LBad => fail (Pan OtherPanic)
   | LInfer va, LInfer vb => union_vars va vb
@@ -469,6 +467,10 @@ Definition rel_lt (v : variance) (a0 b0 : tm) : M unit :=
   | LError, _ | _, LError => ret tt
   | LBound, _ | _, LBound => fail (Pan OtherPanic)
   end.
+
+(** [relate_lifetime_lifetime] *)
+Definition rel_lt (v : variance) (a0 b0 : tm) : M unit :=
+  tb <- get_table ;; rel_lt_norm v (shallow1 tb a0) (shallow1 tb b0).
 
 (** [unify_var_const] *)
 Definition unify_var_const (f : nat) (var : N) (c : tm) : M unit :=
@@ -499,11 +501,8 @@ Definition const_ty (a : tm) : tm :=
   | _ => Node HError []
   end.
 
-(** [relate_const_const] *)
-Definition rel_const (f : nat) (rec : rel_fn) (v : variance) (a0 b0 : tm) : M unit :=
-  tb <- get_table ;;
-  let a := shallow1 tb a0 in
-  let b := shallow1 tb b0 in
+(** [relate_const_const], after the shallow normalisation of both sides *)
+Definition rel_const_norm (f : nat) (rec : rel_fn) (v : variance) (a b : tm) : M unit :=
   rec v (const_ty a) (const_ty b) ;;;
   match ccls_of a, ccls_of b with
   | KBad, _ | _, KBad => fail (Pan OtherPanic)
@@ -516,6 +515,10 @@ Definition rel_const (f : nat) (rec : rel_fn) (v : variance) (a0 b0 : tm) : M un
   | KConc _, KPh | KPh, KConc _ => fail NoSol
   | KBound, _ | _, KBound => fail (Pan OtherPanic)
   end.
+
+(** [relate_const_const] *)
+Definition rel_const (f : nat) (rec : rel_fn) (v : variance) (a0 b0 : tm) : M unit :=
+  tb <- get_table ;; rel_const_norm f rec v (shallow1 tb a0) (shallow1 tb b0).
 
 (** The zipper: types, lifetimes and consts. *)
 Fixpoint rel (fuel : nat) (v : variance) (a b : tm) {struct fuel} : M unit :=
